@@ -8,6 +8,8 @@ Sizes == IF Thorough THEN 0..300 ELSE (0..40) \cup {63, 64, 65, 127, 128, 129, 2
 Bounds == IF Thorough THEN {2, 4, 8, 16, 32, 64, 128, 256, 512} ELSE {2, 4, 8, 16, 32, 64, 128, 256}
 FullLen == IF Thorough THEN 256 ELSE 32
 
+ASSUME LPBAgree == \A k \in 2..600 : LargestPow2Below(k) = LargestPow2BelowDef(k)
+
 Init == \/ \E k \in Sizes : BTInit(k)
         \/ \E k \in Sizes : UFInit(k)
         \/ \E b \in Bounds : \E k \in ListLens(b, FullLen) : PFInit(k, b)
